@@ -420,6 +420,22 @@ def rule_sib(ctx: Ctx) -> RuleReport:
                     rep.ok()
                 else:
                     rep.fail(Finding("C10-SIB", ARCH, fi.qual, "except " + ",".join(_handler_names(h2)), f"per-member handler raises {cls}", line=h2.lineno))
+    # 7z: one folder that does not decode must not end the extraction of the others
+    ex7 = ctx.p.func(SZ, "SevenZipReader.extractall")
+    rep.unit(ex7.key)
+    floop = next((l for l in walk_own(ex7.node) if isinstance(l, ast.For) and "self._folders" in norm(l.iter)), None)
+    if floop is None:
+        raise AnalysisError("C10-SIB: folder loop of SevenZipReader.extractall not found")
+    dtry = [t for t in ast.walk(floop) if isinstance(t, ast.Try) and any(isinstance(c, ast.Call) and (dotted(c.func) or "") == "self._decompress_folder" for st in t.body for c in ast.walk(st))]
+    if not dtry:
+        rep.fail(Finding("C10-SIB", SZ, ex7.qual, "folder decode not guarded", "the decoding of a 7z folder is not enclosed by a handler: one damaged folder ends the extraction of all others", line=floop.lineno))
+    for t in dtry:
+        for h in t.handlers:
+            raises = [x for st in h.body for x in ast.walk(st) if isinstance(x, ast.Raise)]
+            if raises:
+                rep.fail(Finding("C10-SIB", SZ, ex7.qual, "folder handler raises", f"`except {norm(h.type) if h.type else ''}` around the decoding of one folder raises inside the folder loop: a damaged folder makes the whole archive fail and every intact member is lost (a corrupt member must affect only itself)", line=raises[0].lineno))
+            else:
+                rep.ok({"loop": ex7.qual, "damaged_folder": "skipped, the others are extracted"})
     return rep
 
 
